@@ -137,7 +137,20 @@ pub fn c17_twin(plan: &Plan, out: &RunOut) -> Option<Violation> {
                 let ea: Vec<&(u64, Ev)> = a.events.iter().filter(|(_, e)| e.addr() == Some(x)).collect();
                 let eb: Vec<&(u64, Ev)> = b.events.iter().filter(|(_, e)| e.addr() == Some(x)).collect();
                 if ea != eb {
-                    return Some(v("c17.events_differ", format!("node {i}, address {x}: event sequences differ between executions: {:?} vs {:?}", ea.iter().take(12).collect::<Vec<_>>(), eb.iter().take(12).collect::<Vec<_>>()), i, a.final_frame));
+                    let k = (0..ea.len().min(eb.len())).find(|&k| ea[k] != eb[k]).unwrap_or(ea.len().min(eb.len()));
+                    let lo = k.saturating_sub(2);
+                    return Some(v(
+                        "c17.events_differ",
+                        format!(
+                            "node {i}, address {x}: event sequences differ between executions from event #{k} on ({} vs {} events): {:?} vs {:?}",
+                            ea.len(),
+                            eb.len(),
+                            ea.iter().skip(lo).take(5).collect::<Vec<_>>(),
+                            eb.iter().skip(lo).take(5).collect::<Vec<_>>()
+                        ),
+                        i,
+                        a.final_frame,
+                    ));
                 }
             }
             let wa: Vec<&(u64, Ev)> = a.events.iter().filter(|(_, e)| e.addr().is_none()).collect();
